@@ -116,7 +116,7 @@ class Corpus:
         if want_random:
             import gen
             import refsem
-            n = 8 if tier == "quick" else 40
+            n = 8 if tier == "quick" else 16
             accepted = 0
             for i, text in enumerate(gen.random_programs(seed, n)):
                 if accepted >= n:
